@@ -595,10 +595,13 @@ def execFLAT (cdna3 : Bool) (st : St) (w0 w1 : Nat) : Option (String × List Wr)
   let vaddr := field w1 0 7
   let data := field w1 8 15
   let vdst := field w1 24 31
+  -- The GCN3 ALU also accepts the GFX9 extensions of the encoding (gfx803 binaries leave these
+  -- bits 0): a signed 13-bit OFFSET in every segment, and a scalar base when SADDR is neither
+  -- 0x7F nor 0 (`flatPrecomputeScalarBase`, `flatAddrWithScalar`).
   let off : Int :=
-    if !cdna3 then 0
+    if !cdna3 then sext13 (field w0 0 12)
     else if seg == 0 then (field w0 0 11 : Int) else sext13 (field w0 0 12)
-  let useS := cdna3 && seg != 0 && saddr != 0x7F
+  let useS := if cdna3 then seg != 0 && saddr != 0x7F else saddr != 0x7F && saddr != 0
   let addrOf := fun (lane : Nat) =>
     let base : Int := if useS then (st.sreg64 saddr : Int) + (st.rv vaddr lane : Int)
                       else (st.rvN vaddr lane 2 : Int)
